@@ -84,3 +84,18 @@ Theorem C20_success_had_a_usable_bound F existing mx m xff layout pl now :
   fst (generate_checked F existing true mx m xff layout pl now) = StOk -> 0 <= mx < 2^31.
 Proof. exact (generate_checked_ok_bound F existing mx m xff layout pl now). Qed.
 Print Assumptions C20_success_had_a_usable_bound.
+
+(** ** where the file is created: the name as the operating system resolves it (Model/Path.v [phys_elems];
+    generate hands [-dest] to [Create] as it is written).  Without links on the way that is the cleaned
+    text of the name; a link followed by ".." leads to the directory above the link's TARGET, where the
+    cleaned text would name the directory the link lies in (compared with the code by [c20-linkdest]). *)
+From WT Require Import Model.Path Proofs.PathProofs.
+Theorem C20_destination_without_links_is_the_cleaned_name es : phys_elems [] es = clean_elems true es.
+Proof. exact (phys_no_links_is_clean es). Qed.
+Print Assumptions C20_destination_without_links_is_the_cleaned_name.
+Theorem C20_destination_through_a_link ls n t rest :
+  plain n -> find_link ls [n] = Some t ->
+  fold_left (phys_step ls) (n :: dotdot :: rest) [] = fold_left (phys_step ls) rest (tl (rev t)) /\
+  fold_left (clean_step true) (n :: dotdot :: rest) [] = fold_left (clean_step true) rest [].
+Proof. intros Hn Hl. split; [exact (phys_through_link ls n t rest Hn Hl) | exact (lexical_through_link n rest Hn)]. Qed.
+Print Assumptions C20_destination_through_a_link.
